@@ -217,6 +217,14 @@ class DeviceError(Exception):
     """the model's 'reject with a device error'."""
 
 
+class Oversized(Exception):
+    """an init command (possibly parsed out of random bytes) asks for more pixels than this harness is willing to allocate -
+    on either side: the stream is cut before that byte."""
+
+
+MAX_PIXELS = 1 << 16
+
+
 class ModelScreen:
     """independent decoder of the documented command stream (ScreenIO module docstring)."""
 
@@ -270,6 +278,9 @@ class ModelScreen:
             width, height, bpp, psize = u16(0), u16(2), p[4], u16(5)
             if bpp not in (4, 8) or width == 0 or height == 0:
                 raise DeviceError('bad init')
+            if width * height > MAX_PIXELS:
+                self.buf = [cmd] + p[:-1]
+                raise Oversized()
             self.width, self.height, self.bpp, self.palette_size = width, height, bpp, psize
             self.palette = [(0, 0, 0)] * psize
             self.pixels = [0] * (width * height)
@@ -399,6 +410,9 @@ def shard_streams(spec: Dict[str, Any], journal: Any) -> Dict[str, Any]:
                 model.feed(byte)
             except DeviceError:
                 model_error_at = pos
+            except Oversized:
+                counters['streams_cut_before_an_oversized_screen'] = counters.get('streams_cut_before_an_oversized_screen', 0) + 1
+                break
             try:
                 for k in range(8):
                     screen.write_bit(bool((byte >> k) & 1))
